@@ -293,7 +293,7 @@ bool FileLogger::rotate(bool force)
 			rlst.push_back(ostr.str());
 		}
 
-		for (unsigned ii(_rotnum); ii; --ii)
+		for (unsigned ii(rlst.size() - 1); ii; --ii)	// rlst holds at most max_rotation + 1 names
 			rename (rlst[ii - 1].c_str(), rlst[ii].c_str());
 	}
 
